@@ -9,22 +9,23 @@
     instance — C03's [ind_step] by [gstep_is_ind_step] — at the scale and inverse temperature the rational trace names. *)
 From Coq Require Import ZArith QArith List Bool Arith Lia Reals Qreals Lra.
 From Leaspy Require Import Base.QAux Sampler.SamplerModel Sampler.SamplerProofs Saem.Anneal Sampler.AdaptiveStd
-  Api.Personalize Api.PersonalizeChain Api.PersonalizeChainProofs Api.PersonalizeChainLink Api.PersonalizeChainLinkProofs.
+  Api.Personalize Api.PersonalizeChain Api.PersonalizeChainProofs Api.PersonalizeChainLink Api.PersonalizeChainLinkProofs Api.PersonalizeExec Api.PersonalizeChainExec.
 Import ListNotations.
 
-Lemma hom_QR decQ decR attQ regvQ regsumQ attR regvR regsumR :
+Lemma hom_QR addQ mulQ decQ decR attQ regvQ regsumQ attR regvR regsumR :
+  (forall x y, Q2R (addQ x y) = (Q2R x + Q2R y)%R) -> (forall x y, Q2R (mulQ x y) = (Q2R x * Q2R y)%R) ->
   (forall u a b c d t, decQ u a b c d t = decR (Q2R u) (Q2R a) (Q2R b) (Q2R c) (Q2R d) (Q2R t)) ->
   (forall st, attR (smap Q2R st) = map Q2R (attQ st)) ->
   (forall v st, regvR v (smap Q2R st) = map Q2R (regvQ v st)) ->
   (forall st, regsumR (smap Q2R st) = map Q2R (regsumQ st)) ->
-  carrier_hom Q R Q2R Qplus Qmult (fun q => q) decQ attQ regvQ regsumQ Rplus Rmult Q2R decR attR regvR regsumR.
-Proof.
-  intros Hd Ha Hr Hs. constructor; auto.
-  - intros x y. apply Q2R_plus.
-  - intros x y. apply Q2R_mult.
-Qed.
+  carrier_hom Q R Q2R addQ mulQ (fun q => q) decQ attQ regvQ regsumQ Rplus Rmult Q2R decR attR regvR regsumR.
+Proof. intros Hp Hm Hd Ha Hr Hs. constructor; auto. Qed.
 
 Section QR.
+  (** the rational addition / multiplication: [Qplus] / [Qmult], or the normalising [radd] / [rmul] of the executor *)
+  Variables addQ mulQ : Q -> Q -> Q.
+  Hypothesis Hp : forall x y, Q2R (addQ x y) = (Q2R x + Q2R y)%R.
+  Hypothesis Hm : forall x y, Q2R (mulQ x y) = (Q2R x * Q2R y)%R.
   Variable decQ : Q -> Q -> Q -> Q -> Q -> Q -> bool.
   Variable decR : R -> R -> R -> R -> R -> R -> bool.
   Variable attQ : istate Q -> list Q.
@@ -42,13 +43,13 @@ Section QR.
   Theorem run_QR orders init scales tp :
     personalize_run R Rplus Rmult Q2R decR attR regvR regsumR scf acf nb random_order n_ind orders (smap Q2R init) scales (tape_map Q2R tp)
     = outcome_map (out_map Q2R)
-        (personalize_run Q Qplus Qmult (fun q => q) decQ attQ regvQ regsumQ scf acf nb random_order n_ind orders init scales tp).
+        (personalize_run Q addQ mulQ (fun q => q) decQ attQ regvQ regsumQ scf acf nb random_order n_ind orders init scales tp).
   Proof. apply run_hom. apply hom_QR; assumption. Qed.
 
   (** what the theorems over R say about the rational re-execution: the real run succeeds on the injected inputs with the injected
       result, and each recorded call of the rational run, injected, is a step of the real model *)
   Theorem run_QR_steps orders init scales tp o :
-    personalize_run Q Qplus Qmult (fun q => q) decQ attQ regvQ regsumQ scf acf nb random_order n_ind orders init scales tp = Done o ->
+    personalize_run Q addQ mulQ (fun q => q) decQ attQ regvQ regsumQ scf acf nb random_order n_ind orders init scales tp = Done o ->
     personalize_run R Rplus Rmult Q2R decR attR regvR regsumR scf acf nb random_order n_ind orders (smap Q2R init) scales (tape_map Q2R tp)
       = Done (out_map Q2R o) /\
     Forall (fun kl => Forall (fun r => step_ok R Rplus Rmult Q2R decR attR regvR (step_map Q2R r)) (snd kl)) (o_trace o).
@@ -60,6 +61,29 @@ Section QR.
     eapply Forall_impl; [|exact Fl]. intros r [_ S]. exact S.
   Qed.
 End QR.
+
+(** the instance T2 executes on every recorded run ([PersonalizeChainExec.run_case]: normalising arithmetic, decisions and oracles
+    looked up in finite tables of what the implementation did): for ANY real decision rule that takes, on the recorded uniforms,
+    the recorded decisions, and ANY real oracles that extend the tables, the re-execution is — injected — the real run *)
+Lemma Q2R_Qred q : Q2R (Qred q) = Q2R q.
+Proof. apply Qeq_eqR. apply Qred_correct. Qed.
+
+Theorem run_case_real tol (c : chain_case) decR attR regvR regsumR :
+  (forall u a b cc d t, decide_of (cc_dec c) u a b cc d t = decR (Q2R u) (Q2R a) (Q2R b) (Q2R cc) (Q2R d) (Q2R t)) ->
+  (forall st, attR (smap Q2R st) = map Q2R (att_of tol (cc_table c) st)) ->
+  (forall v st, regvR v (smap Q2R st) = map Q2R (regv_of tol (cc_table c) v st)) ->
+  (forall st, regsumR (smap Q2R st) = map Q2R (regsum_of tol (cc_table c) st)) ->
+  forall o, run_case tol c = Done o ->
+    personalize_run R Rplus Rmult Q2R decR attR regvR regsumR (cc_scf c) (cc_acf c) (cc_nb c) (cc_random c) (length (cc_ids c))
+                    (cc_orders c) (smap Q2R (cc_init c)) (cc_scales c) (tape_map Q2R (Build_tape (cc_normals c) (cc_uniforms c)))
+      = Done (out_map Q2R o) /\
+    Forall (fun kl => Forall (fun r => step_ok R Rplus Rmult Q2R decR attR regvR (step_map Q2R r)) (snd kl)) (o_trace o).
+Proof.
+  intros Hd Ha Hr Hs o E. unfold run_case in E.
+  refine (run_QR_steps radd rmul _ _ _ decR _ _ _ attR regvR regsumR Hd Ha Hr Hs _ _ _ _ _ _ _ _ _ o E).
+  - intros x y. unfold radd. now rewrite Q2R_Qred, Q2R_plus.
+  - intros x y. unfold rmul. now rewrite Q2R_Qred, Q2R_mult.
+Qed.
 
 (** * Non-vacuity: the example run of PersonalizeChainProofs (computed over Q) and its real counterpart *)
 Definition sumR (l : list R) : R := fold_right Rplus 0%R l.
@@ -116,7 +140,7 @@ Proof.
   { destruct exQ_run as [o|e] eqn:E; vm_compute in E; [|discriminate]. exists o. split; [reflexivity|].
     inversion E; subst o. repeat split; vm_compute; reflexivity. }
   destruct X as (o & E & X1 & X2 & X3). exists o. split; [exact E|].
-  destruct (run_QR_steps ex_decide exR_decide ex_att ex_regv ex_att exR_att exR_regv exR_att ex_decide_QR ex_att_QR ex_regv_QR ex_att_QR
+  destruct (run_QR_steps Qplus Qmult Q2R_plus Q2R_mult ex_decide exR_decide ex_att ex_regv ex_att exR_att exR_regv exR_att ex_decide_QR ex_att_QR ex_regv_QR ex_att_QR
               ex_scf ex_acf 1 true 2 ex_orders ex_init [1; 2]%Q ex_tape o E) as [R1 R2].
   repeat split; assumption.
 Qed.
